@@ -1,16 +1,25 @@
 """C08 -- two-port parameter sets are mutually consistent and match their port definitions.
 
-1. tx_twoport regenerates lean/Lcapy/Generated/TwoPort.lean from /repo/lcapy/twoport.py.
-2. lake build Lcapy.Props.C08 re-checks every theorem against the regenerated definitions;
+1. tx_twoport regenerates lean/Lcapy/Generated/TwoPort.lean (the eight parameter-matrix classes) and tx_tpnet
+   regenerates lean/Lcapy/Generated/TwoPortNet.lean (the TwoPort NETWORK level: equation() vectors, model class
+   attributes, parameter dispatch, source-vector conversions, Chain / Par2 / Ser2 / Hybrid2 / InverseHybrid2,
+   X-model conversions) from /repo/lcapy/twoport.py; after the build the files on disk are compared with what was
+   generated (other runs share / restore them) and the build is repeated if they differ.
+2. lake build Lcapy.Props.C08 Lcapy.Props.C08Net re-checks every theorem against the regenerated definitions;
    #print axioms audit.
 3. Correspondence: the real Lcapy classes and the generated model (native driver, exact
    checked rationals) are run on the same matrices (numeric, and generic-symbolic sampled at
-   rational points) and compared entry by entry.
+   rational points) and compared entry by entry; same for two-port objects with sources, cascades, connections.
 4. Oracle (failing-input search, independent of the model's answers): ports generated from
    the *spec* relation of the source representation must satisfy the spec relation of the
    target representation with Lcapy's output matrix; derived attributes must satisfy their
-   port definitions; chains must carry cascaded ports.  All judged by the Lean spec predicates.
+   port definitions; chains must carry cascaded ports; the code's equation() must vanish on spec ports; models with
+   sources must keep their affine port relation; cascades of mixed-representation stages must carry the port obtained
+   by eliminating the internal port variables; existence pivots.  All judged by the Lean spec predicates
+   (streams of the network level: harness/c08_net.py).
+5. `--replay file` re-runs one recorded network-level case on the real code.
 """
+import json
 import os
 import sys
 import warnings
@@ -19,7 +28,9 @@ from fractions import Fraction
 sys.path.insert(0, os.path.dirname(os.path.abspath(__file__)))
 import common
 from common import fstr, Fraction
-from translate import tx_twoport
+from translate import tx_twoport, tx_tpnet
+import c08_net
+from c08_net import port_from_lin, mulv, basis_ports
 
 warnings.filterwarnings('ignore')
 
@@ -36,45 +47,6 @@ ALIAS = {'voltage_gain': 'Vgain12', 'forward_voltage_gain': 'Vgain12', 'reverse_
          'current_gain': 'Igain12', 'forward_current_gain': 'Igain12', 'reverse_current_gain': 'Igain21',
          'transadmittance': 'forward_transadmittance', 'transimpedance': 'forward_transimpedance'}
 PIDX = {'V1': 0, 'I1': 1, 'V2': 2, 'I2': 3}
-
-
-def port_from_lin(rep, l, r, Z0):
-    """the port (V1, I1, V2, I2) whose `lin` vectors are l (lhs) and r (rhs) for representation rep
-    (inverse of the table in Spec.rel; used only to *generate* candidate ports, which the Lean
-    spec then validates)"""
-    l1, l2 = l
-    r1, r2 = r
-    if rep == 'A':
-        return (l1, l2, r1, -r2)
-    if rep == 'B':
-        return (r1, r2, l1, -l2)
-    if rep == 'G':
-        return (r1, l1, l2, r2)
-    if rep == 'H':
-        return (l1, r1, r2, l2)
-    if rep == 'Y':
-        return (r1, l1, r2, l2)
-    if rep == 'Z':
-        return (l1, r1, l2, r2)
-    if rep == 'S':   # l = (b1, b2), r = (a1, a2)
-        a1, a2, b1, b2 = r1, r2, l1, l2
-    else:            # T: l = (b1, a1), r = (a2, b2)
-        b1, a1, a2, b2 = l1, l2, r1, r2
-    return ((a1 + b1) / 2, (a1 - b1) / (2 * Z0), (a2 + b2) / 2, (a2 - b2) / (2 * Z0))
-
-
-def mulv(m, r):
-    return (m[0] * r[0] + m[1] * r[1], m[2] * r[0] + m[3] * r[1])
-
-
-def basis_ports(rep, m, Z0, rng):
-    """two independent ports satisfying the spec relation of `rep` with matrix m"""
-    out = []
-    for r in ((Fraction(rng.randint(1, 9)), Fraction(0)), (Fraction(0), Fraction(rng.randint(1, 9)))):
-        out.append(port_from_lin(rep, mulv(m, r), r, Z0))
-    r = (Fraction(rng.randint(-9, 9), rng.randint(1, 5)), Fraction(rng.randint(-9, 9), rng.randint(1, 5)))
-    out.append(port_from_lin(rep, mulv(m, r), r, Z0))
-    return out
 
 
 def rand_entry(rng, allow_zero=False):
@@ -124,24 +96,69 @@ def srat(x):
     return sympy.Rational(x.numerator, x.denominator)
 
 
+def routed_pairs(text):
+    """conversions whose generated definition goes through another representation (e.g. A_to_G = inv (A_to_H m))"""
+    import re
+    out = set()
+    for m in re.finditer(r'^def ([A-Z])_to_([A-Z]) .*?:=\n(.*?)\n\n', text, re.M | re.S):
+        for q in re.finditer(r'\b([A-Z])_to_([A-Z])\b', m.group(3)):
+            if q.group(1) != q.group(2):
+                out.add(m.group(1) + m.group(2))
+    return out
+
+
 def run(chk, replay=None):
-    # ---- 1. translator
+    # ---- 1. translators (both files are regenerated from the source text on every run)
     text, info = tx_twoport.generate(common.REPO)
-    gen_path = os.path.join(common.LEAN, 'Lcapy', 'Generated', 'TwoPort.lean')
-    with common.LakeLock():
-        if not os.path.exists(gen_path) or open(gen_path).read() != text:
-            with open(gen_path, 'w') as f:
-                f.write(text)
-    chk.coverage['translator'] = {'status': 'ok', 'definitions': len(info['defs']),
-                                  'unparsed': info['unparsed']}
-    # ---- 2. proofs
-    broken = chk.lean(['Lcapy/Props/C08.lean'],
-                      helper_files=['Lcapy/Proofs/TwoPortBase.lean', 'Lcapy/Spec/TwoPort.lean',
-                                    'Lcapy/Spec/TwoPortExec.lean', 'Lcapy/Model/M2.lean', 'Lcapy/Model/CRat.lean'],
-                      leanchecker=(chk.tier == 'thorough'))
+    text_net, info_net = tx_tpnet.generate(common.REPO)
+    gen = [(os.path.join(common.LEAN, 'Lcapy', 'Generated', 'TwoPort.lean'), text),
+           (os.path.join(common.LEAN, 'Lcapy', 'Generated', 'TwoPortNet.lean'), text_net)]
+    chk.coverage['translator'] = {'status': 'ok', 'definitions': len(info['defs']) + len(info_net['defs']),
+                                  'unparsed': info['unparsed'] + info_net['unparsed'],
+                                  'network_level': {'definitions': len(info_net['defs']), 'notes': info_net['notes']}}
+
+    def write_generated():
+        changed = False
+        with common.LakeLock():
+            for (path, txt) in gen:
+                if not os.path.exists(path) or open(path).read() != txt:
+                    with open(path, 'w') as f:
+                        f.write(txt)
+                    changed = True
+        return changed
+
+    # ---- 2. proofs.  Generated/TwoPort.lean is shared with c07.py and every generated file is restored by
+    # tools_seeded.py of concurrent runs: after the build make sure that what was built is what was generated
+    # from THIS source tree, otherwise rewrite and build again.
+    rewrites = 0
+    for attempt in range(4):
+        write_generated()
+        broken = chk.lean(['Lcapy/Props/C08.lean', 'Lcapy/Props/C08Net.lean'],
+                          helper_files=['Lcapy/Proofs/TwoPortBase.lean', 'Lcapy/Proofs/TwoPortNet.lean', 'Lcapy/Spec/TwoPort.lean',
+                                        'Lcapy/Spec/TwoPortExec.lean', 'Lcapy/Spec/TwoPortNet.lean', 'Lcapy/Spec/TwoPortNetExec.lean',
+                                        'Lcapy/Model/M2.lean', 'Lcapy/Model/CRat.lean', 'Lcapy/Driver/C08.lean',
+                                        'Lcapy/Driver/C08Net.lean'],
+                          leanchecker=(chk.tier == 'thorough'))
+        if all(os.path.exists(path) and open(path).read() == txt for (path, txt) in gen):
+            break
+        rewrites += 1
+    else:
+        raise common.Infra('generated Lean files keep being overwritten by concurrent runs (4 attempts)')
+    chk.coverage['translator']['rewritten_after_concurrent_overwrite'] = rewrites
     drv = chk.get_driver()
     L = LcapyTP()
     rng = chk.rng
+    if replay:
+        rc = json.load(open(replay))
+        case = rc.get('input', rc)
+        net = c08_net.Net(chk, drv, L)
+        if not net.replay(case, routed_pairs(text)):
+            print('replay: this replay file (kind %s) is not a network-level case; its input is: %s'
+                  % (rc.get('kind'), json.dumps(case)[:400]))
+        chk.coverage['rule'] = 'replay of one recorded case'
+        for b in broken[:20]:
+            chk.unexplained('broken-obligation', b, chk.coverage.get('build_log_tail', '')[-600:])
+        return
     quick = chk.tier == 'quick'
     n_numeric = 3 if quick else 25          # numeric matrices per representation
     n_points = 3 if quick else 12           # sample points per generic-symbolic representation
@@ -149,7 +166,12 @@ def run(chk, replay=None):
     chk.coverage['rule'] = ('each case = (source representation, matrix, Z0, target representation or derived attribute); '
                             'matrices: generic symbolic entries sampled at random rational points + numeric rational matrices '
                             '(incl. a degenerate stream with zero entries); non-trivial = all pivots finite on both sides and the '
-                            'oracle port has a non-zero driving variable; distinct by (rep, matrix, Z0, target)')
+                            'oracle port has a non-zero driving variable; distinct by (rep, matrix, Z0, target). '
+                            'Network level: equation() of all 8 classes and of the 6 model classes on ports of another representation; '
+                            'TwoPort?Model.Pparams (6x8) and .Pmodel with sources (6x6); cascades of 2-4 stages with random native '
+                            'representations (non-reciprocal, sources with p=0.6), random bracketing and spelling '
+                            '(chain/append/prepend/cascade/*); parallel/series/hybrid/inverse_hybrid; existence pivots on named '
+                            'degenerate two-ports and random zero patterns')
     disagreements = []
     counterexamples = 0
 
@@ -401,6 +423,12 @@ def run(chk, replay=None):
                                     'lcapy': [fstr(v) for v in got], 'spec': 'cascaded port must satisfy the chained matrix',
                                     'port': [fstr(v) for v in whole]},
                                    '%sMatrix.%s does not multiply in signal order' % (x, meth))
+
+    # ---- 3d. TwoPort network level (equation(), sources, cascades, connections, pivots)
+    net = c08_net.Net(chk, drv, L)
+    net.run(routed_pairs(text))
+    counterexamples += net.counterexamples
+    disagreements.extend(net.disagreements)
 
     # ---- 4. classification of broken obligations / correspondence with no counterexample
     chk.coverage['correspondence']['samples_of_disagreement'] = disagreements[:5]
